@@ -32,7 +32,7 @@ LEVEL_TEXT = (
 
 
 def budget(tier):
-    return 4 if tier == "quick" else 40
+    return 6 if tier == "quick" else 60
 
 
 def wall_guard(tier):
